@@ -166,7 +166,7 @@ __CPROVER_ensures(IMPLIES(i < n && __CPROVER_return_value < n, !SPEC_SX_ISSPACE(
 static enum sx_what looking_at(const char *s, const size_t n, const size_t i)
 __CPROVER_requires(__CPROVER_r_ok(s, n) && i < n)
 __CPROVER_assigns()
-__CPROVER_ensures((int)__CPROVER_return_value == SPEC_SX_LOOKING_AT(s, n, i))
+__CPROVER_ensures((int)__CPROVER_return_value == spec_sx_looking_at(s, n, i))
 ;
 
 /* symbol at s[*i]: the maximal run of symbol characters; it must be followed
@@ -179,6 +179,7 @@ __CPROVER_assigns(*i, g_sx_live)
 __CPROVER_ensures(__CPROVER_old(*i) < *i && *i <= n)
 __CPROVER_ensures(IMPLIES(__CPROVER_old(*i) <= g_k && g_k < *i, SPEC_SX_ISSYMCH(s[g_k])))
 __CPROVER_ensures(IMPLIES(*i < n, !SPEC_SX_ISSYMCH(s[*i])))
+__CPROVER_ensures(SPEC_SX_ISSYMCH(s[*i - 1]))
 __CPROVER_ensures((__CPROVER_return_value == NULL) == (*i < n && !SPEC_SX_ISDELIM(s[*i])))
 __CPROVER_ensures(IMPLIES(__CPROVER_return_value != NULL,
     SX_NODE_FRESH(__CPROVER_return_value) && __CPROVER_return_value->type == SXT_SYMBOL
@@ -213,6 +214,7 @@ __CPROVER_ensures(g_sx_live == __CPROVER_old(g_sx_live) + (__CPROVER_return_valu
 __CPROVER_ensures(__CPROVER_old(*i) + (offset) < *i && *i <= n) \
 __CPROVER_ensures(IMPLIES(__CPROVER_old(*i) + (offset) <= g_k && g_k < *i, SX_ISBASEDIGIT(base, s[g_k]))) \
 __CPROVER_ensures(IMPLIES(*i < n, !SX_ISBASEDIGIT(base, s[*i]))) \
+__CPROVER_ensures(SX_ISBASEDIGIT(base, s[*i - 1])) \
 __CPROVER_ensures((__CPROVER_return_value == NULL) == (*i < n && !SPEC_SX_ISDELIM(s[*i]))) \
 __CPROVER_ensures(IMPLIES(__CPROVER_return_value != NULL, \
     SX_NODE_FRESH(__CPROVER_return_value) && __CPROVER_return_value->type == SXT_INTEGER)) \
@@ -259,51 +261,116 @@ SX_INT_ENSURES(s, n, i, 2, 16)
                                 || (st) == SXS_UNKNOWN_INPUT || (st) == SXS_UNEXPECTED_END)
 #define SX_RV __CPROVER_return_value
 
+/* The relation is written as C predicates over the returned structure (each
+ * input octet and node field is read once; the clause-per-fact form of the
+ * same text produced some 20 000 pointer-check side conditions and exhausted
+ * memory).  k is the ghost index: the predicate holds for every k. */
+
+/* status / node / position */
+static inline bool sx_token_post_status(const char *s, size_t n, size_t i, struct sx_parse_result r)
+{
+  const enum sx_status st = r.status;
+  const size_t p = r.position;
+  if (!(st == SXS_SUCCESS || st == SXS_FOUND_LIST || st == SXS_BROKEN_INTEGER
+        || st == SXS_BROKEN_SYMBOL || st == SXS_UNKNOWN_INPUT)) return false;
+  if (p > n) return false;
+  if (st == SXS_SUCCESS && r.node == NULL) return p == 0;          /* nothing but whitespace */
+  if (st == SXS_SUCCESS) {                                          /* a token ending at p */
+    const enum sx_node_type ty = r.node->type;
+    if (!(i < p)) return false;
+    if (ty == SXT_EMPTY_LIST) return s[p - 1] == ')';
+    if (!(p == n || SPEC_SX_ISDELIM(s[p]))) return false;
+    if (ty == SXT_INTEGER) return SPEC_SX_ISXDIGIT(s[p - 1]);
+    return ty == SXT_SYMBOL && SPEC_SX_ISSYMCH(s[p - 1]);
+  }
+  if (r.node != NULL) return false;                                 /* no node otherwise */
+  if (st == SXS_FOUND_LIST) return i < p && s[p - 1] == '(';
+  /* errors: position is the offending octet */
+  if (!(i <= p && p < n)) return false;
+  if (st == SXS_UNKNOWN_INPUT)
+    return !SPEC_SX_ISSPACE(s[p]) && spec_sx_looking_at(s, n, p) == SPEC_SX_AT_UNKNOWN;
+  if (st == SXS_BROKEN_SYMBOL)
+    return i < p && SPEC_SX_ISSYMCH(s[p - 1]) && !SPEC_SX_ISSYMCH(s[p]) && !SPEC_SX_ISDELIM(s[p]);
+  /* SXS_BROKEN_INTEGER */
+  return i < p && SPEC_SX_ISXDIGIT(s[p - 1]) && !SPEC_SX_ISDELIM(s[p]);
+}
+
+/* only whitespace in front of a parenthesis / an unknown octet, or up to the
+ * end when there is no token.  (The text of a symbol node and the digits of
+ * an integer are the business of parse_symbol / parse_integer_, whose
+ * results are passed on unchanged; a fresh block of unknown size cannot be
+ * described in a postcondition that callers assume.) */
+static inline bool sx_token_post_text(const char *s, size_t n, size_t i, struct sx_parse_result r, size_t k)
+{
+  const enum sx_status st = r.status;
+  const size_t p = r.position;
+  size_t ws_end;                       /* s[i..ws_end) must be whitespace */
+  if (st == SXS_SUCCESS && r.node == NULL) ws_end = n;
+  else if (st == SXS_FOUND_LIST || st == SXS_UNKNOWN_INPUT) ws_end = (st == SXS_FOUND_LIST) ? p - 1 : p;
+  else if (st == SXS_SUCCESS && r.node->type == SXT_EMPTY_LIST) ws_end = p - 1;
+  else return true;
+  if (i <= k && k < ws_end) return SPEC_SX_ISSPACE(s[k]);
+  return true;
+}
+
 struct sx_parse_result sx_parse_token(const char *s, const size_t n, const size_t i)
 __CPROVER_requires(__CPROVER_r_ok(s, n) && i <= n)
 __CPROVER_assigns(g_sx_live)
-__CPROVER_ensures(SX_RV.status == SXS_SUCCESS || SX_RV.status == SXS_FOUND_LIST
-    || SX_RV.status == SXS_BROKEN_INTEGER || SX_RV.status == SXS_BROKEN_SYMBOL
-    || SX_RV.status == SXS_UNKNOWN_INPUT)
-__CPROVER_ensures(SX_RV.position <= n)
-/* nothing but whitespace */
-__CPROVER_ensures(IMPLIES(SX_RV.status == SXS_SUCCESS && SX_RV.node == NULL,
-    SX_RV.position == 0 && IMPLIES(i <= g_k && g_k < n, SPEC_SX_ISSPACE(s[g_k]))))
-/* a token */
-__CPROVER_ensures(IMPLIES(SX_RV.status == SXS_SUCCESS && SX_RV.node != NULL,
-    i < SX_RV.position && SX_NODE_FRESH(SX_RV.node)
-    && (SX_RV.node->type == SXT_SYMBOL || SX_RV.node->type == SXT_INTEGER || SX_RV.node->type == SXT_EMPTY_LIST)
-    && (SX_RV.position == n || SX_RV.node->type == SXT_EMPTY_LIST || SPEC_SX_ISDELIM(s[SX_RV.position]))))
-__CPROVER_ensures(IMPLIES(SX_RV.status == SXS_SUCCESS && SX_RV.node != NULL && SX_RV.node->type == SXT_EMPTY_LIST,
-    s[SX_RV.position - 1] == ')' && IMPLIES(i <= g_k && g_k < SX_RV.position - 1, SPEC_SX_ISSPACE(s[g_k]))))
-__CPROVER_ensures(IMPLIES(SX_RV.status == SXS_SUCCESS && SX_RV.node != NULL && SX_RV.node->type == SXT_INTEGER,
-    SPEC_SX_ISXDIGIT(s[SX_RV.position - 1])))
-__CPROVER_ensures(IMPLIES(SX_RV.status == SXS_SUCCESS && SX_RV.node != NULL && SX_RV.node->type == SXT_SYMBOL,
-    __CPROVER_r_ok(SX_RV.node->data.symbol, 1)
-    && SX_SYMLEN(SX_RV.node->data.symbol) >= 1 && SX_SYMLEN(SX_RV.node->data.symbol) <= SX_RV.position - i
-    && SX_RV.node->data.symbol[SX_SYMLEN(SX_RV.node->data.symbol)] == '\0'
-    && SPEC_SX_ISSYMINIT(s[SX_RV.position - SX_SYMLEN(SX_RV.node->data.symbol)])
-    && IMPLIES(g_k < SX_SYMLEN(SX_RV.node->data.symbol),
-               SX_RV.node->data.symbol[g_k] == s[SX_RV.position - SX_SYMLEN(SX_RV.node->data.symbol) + g_k])
-    && IMPLIES(i <= g_k && g_k < SX_RV.position - SX_SYMLEN(SX_RV.node->data.symbol), SPEC_SX_ISSPACE(s[g_k]))))
-/* the start of a list */
-__CPROVER_ensures(IMPLIES(SX_RV.status == SXS_FOUND_LIST,
-    SX_RV.node == NULL && i < SX_RV.position && s[SX_RV.position - 1] == '('
-    && IMPLIES(i <= g_k && g_k < SX_RV.position - 1, SPEC_SX_ISSPACE(s[g_k]))))
-/* errors: no node; position is the offending octet */
-__CPROVER_ensures(IMPLIES(SX_STATUS_IS_ERROR(SX_RV.status),
-    SX_RV.node == NULL && i <= SX_RV.position && SX_RV.position < n))
-__CPROVER_ensures(IMPLIES(SX_RV.status == SXS_UNKNOWN_INPUT,
-    !SPEC_SX_ISSPACE(s[SX_RV.position]) && SPEC_SX_LOOKING_AT(s, n, SX_RV.position) == SPEC_SX_AT_UNKNOWN
-    && IMPLIES(i <= g_k && g_k < SX_RV.position, SPEC_SX_ISSPACE(s[g_k]))))
-__CPROVER_ensures(IMPLIES(SX_RV.status == SXS_BROKEN_SYMBOL,
-    i < SX_RV.position && SPEC_SX_ISSYMCH(s[SX_RV.position - 1])
-    && !SPEC_SX_ISSYMCH(s[SX_RV.position]) && !SPEC_SX_ISDELIM(s[SX_RV.position])))
-__CPROVER_ensures(IMPLIES(SX_RV.status == SXS_BROKEN_INTEGER,
-    i < SX_RV.position && SPEC_SX_ISXDIGIT(s[SX_RV.position - 1]) && !SPEC_SX_ISDELIM(s[SX_RV.position])))
+__CPROVER_ensures(IMPLIES(SX_RV.node != NULL, SX_NODE_FRESH(SX_RV.node)))
+__CPROVER_ensures(sx_token_post_status(s, n, i, SX_RV))
+__CPROVER_ensures(sx_token_post_text(s, n, i, SX_RV, g_k))
 /* ledger */
 __CPROVER_ensures(g_sx_live == __CPROVER_old(g_sx_live)
     + (SX_RV.node == NULL ? 0 : SX_RV.node->type == SXT_SYMBOL ? 2 : 1))
+;
+
+/* ---- expressions (mutually recursive) ------------------------------------
+ * sx_parse_ reads one expression starting at or after i; sx_parse_list reads
+ * the rest of a list whose '(' has been consumed, up to and including its
+ * ')'.  Checked with --enforce-contract-rec: each recursive call is replaced
+ * by the contract below, the other function of the pair by its own.
+ *   - never SXS_FOUND_LIST; position <= n; nothing outside s[0..n) is read
+ *   - success: a fresh non-NULL node, i < position, and position is just past
+ *     the last octet of the expression (that octet is not whitespace: ')' for
+ *     a list, a constituent for a symbol, a digit for an integer).  Input
+ *     that holds nothing but whitespace is therefore never a success.
+ *   - error: no node, or the fresh head of the partial list built so far
+ *     (sx_parse destroys it); every node obtained is linked into the result.
+ * The shape of the tree below its root is outside a non-recursive contract:
+ * see the bounded targets (roundtrip_*, reject_*).  Termination: every
+ * recursive call is made at a position > i (proved as postcondition
+ * `i < position`) and positions are bounded by n; CBMC has no `decreases`
+ * for recursion, so that argument is stated, not machine-checked. */
+static inline bool sx_expr_post(const char *s, size_t n, size_t i, struct sx_parse_result r, bool list_tail)
+{
+  const enum sx_status st = r.status;
+  const size_t p = r.position;
+  if (!(st == SXS_SUCCESS || st == SXS_BROKEN_INTEGER || st == SXS_BROKEN_SYMBOL
+        || st == SXS_UNKNOWN_INPUT || st == SXS_UNEXPECTED_END)) return false;
+  if (p > n) return false;
+  if (st != SXS_SUCCESS) return r.node == NULL || r.node->type == SXT_PAIR;
+  if (r.node == NULL || !(i < p)) return false;
+  const enum sx_node_type ty = r.node->type;
+  const char last = s[p - 1];
+  if (ty == SXT_PAIR || ty == SXT_EMPTY_LIST) return last == ')';
+  if (list_tail) return false;                    /* the rest of a list is a list */
+  if (ty == SXT_SYMBOL) return SPEC_SX_ISSYMCH(last);
+  return ty == SXT_INTEGER && SPEC_SX_ISXDIGIT(last);
+}
+
+static struct sx_parse_result sx_parse_(const char *s, size_t n, size_t i)
+__CPROVER_requires(__CPROVER_r_ok(s, n) && i <= n)
+__CPROVER_assigns(g_sx_live)
+__CPROVER_ensures(IMPLIES(SX_RV.node != NULL, SX_NODE_FRESH(SX_RV.node)))
+__CPROVER_ensures(sx_expr_post(s, n, i, SX_RV, false))
+;
+
+static struct sx_parse_result sx_parse_list(const char *s, size_t n, size_t i)
+__CPROVER_requires(__CPROVER_r_ok(s, n) && i <= n)
+__CPROVER_assigns(g_sx_live)
+__CPROVER_ensures(IMPLIES(SX_RV.node != NULL, SX_NODE_FRESH(SX_RV.node)))
+__CPROVER_ensures(sx_expr_post(s, n, i, SX_RV, true))
+__CPROVER_ensures(IMPLIES(i >= n, SX_RV.status == SXS_UNEXPECTED_END && SX_RV.node == NULL))
 ;
 
 #endif
